@@ -22,7 +22,7 @@ let err e = "E " ^ string_of_int (int_of_nat (pyerr_code e))
 let b01 b = if b then "1" else "0"
 let bool_of tok = (tok = "1")
 
-let t = tables
+let t = the_tables
 
 let env_of d p g v =
   let add k o l = match o with None -> l | Some s -> (k, s) :: l in
